@@ -793,10 +793,12 @@ theorem storeInv_apply {s : KState} (m c : Addr) (op : KOp) (hI : StoreInv s) : 
         · simp
   | settle a b ep =>
     simp only
-    cases h : s.settleOrders m c a b ep with
+    cases h : s.msgMarketSettle m c a b ep with
     | error e => exact hI
     | ok s' =>
       simp only
+      unfold KState.msgMarketSettle at h
+      split at h; · simp at h
       unfold KState.settleOrders at h
       split at h
       · simp at h
@@ -813,10 +815,12 @@ theorem storeInv_apply {s : KState} (m c : Addr) (op : KOp) (hI : StoreInv s) : 
         · exact hI.pos o (getOrders_mem hb o h').1
   | fillBids seller ids ta flat =>
     simp only
-    cases h : s.fillBids m c seller ids ta flat with
+    cases h : s.msgFillBids m c seller ids ta flat with
     | error e => exact hI
     | ok s' =>
       simp only
+      unfold KState.msgFillBids at h
+      split at h; · simp at h
       unfold KState.fillBids at h
       split at h; · simp at h
       simp only at h
@@ -825,10 +829,12 @@ theorem storeInv_apply {s : KState} (m c : Addr) (op : KOp) (hI : StoreInv s) : 
       exact storeInv_close hI (by intro l hl; simp at hl) h
   | fillAsks buyer ids tp fees =>
     simp only
-    cases h : s.fillAsks m c buyer ids tp fees with
+    cases h : s.msgFillAsks m c buyer ids tp fees with
     | error e => exact hI
     | ok s' =>
       simp only
+      unfold KState.msgFillAsks at h
+      split at h; · simp at h
       unfold KState.fillAsks at h
       split at h; · simp at h
       simp only at h
@@ -883,6 +889,221 @@ theorem settleOrders_covered {s s' : KState} {m c : Addr} {a b : List Nat} {ep :
       · exact hI.pos o (getOrders_mem ha o h').1
       · exact hI.pos o (getOrders_mem hb o h').1
     · rw [List.map_append, getOrders_ids ha, getOrders_ids hb]; exact hids
+
+
+/-! ## 5b. The messages as the chain runs them: `ValidateBasic`, then the msg server
+
+`KState.msgMarketSettle` / `msgFillBids` / `msgFillAsks` put the request's `ValidateBasic` (the order-id
+part: at least one id, no id zero, no id twice, no id on both sides) in front of the keeper functions;
+`KState.apply` — one message of a history — runs these.  So "distinct order ids" is no longer an
+assumption about the request but a consequence of its acceptance, and an order is settled at most
+once: not twice in one request (the request is refused and moves nothing), not again in a later one
+(it has left the store, or what is left of it has). -/
+
+theorem validateOrderIDs_ok {ids : List Nat} (h : validateOrderIDs ids = .ok ()) :
+    ids ≠ [] ∧ 0 ∉ ids ∧ ids.Nodup := by
+  unfold validateOrderIDs at h
+  split at h; · simp at h
+  rename_i h1
+  split at h; · simp at h
+  rename_i h2
+  split at h; · simp at h
+  rename_i h3
+  exact ⟨h1, h2, Decidable.not_not.mp h3⟩
+
+theorem settleValidateBasic_ok {a b : List Nat} (h : settleValidateBasic a b = .ok ()) :
+    a ≠ [] ∧ b ≠ [] ∧ 0 ∉ a ++ b ∧ (a ++ b).Nodup := by
+  unfold settleValidateBasic at h
+  split at h; · simp at h
+  rename_i ha
+  split at h; · simp at h
+  rename_i hb
+  split at h; · simp at h
+  rename_i hx
+  obtain ⟨a1, a2, a3⟩ := validateOrderIDs_ok ha
+  obtain ⟨b1, b2, b3⟩ := validateOrderIDs_ok hb
+  refine ⟨a1, b1, by simp [a2, b2], ?_⟩
+  rw [List.nodup_append]
+  refine ⟨a3, b3, ?_⟩
+  intro x hx1 y hy1 hxy
+  subst hxy
+  apply hx
+  simp only [List.any_eq_true, List.contains_iff_mem]
+  exact ⟨x, hx1, hy1⟩
+
+/-- **A request that names an order twice moves nothing.**  Whatever the state, a `MsgMarketSettle`
+whose ask and bid id lists together contain an id twice (in one list — adjacent or not, a list of two
+or of many — or once on each side), and a `MsgFillBids` / `MsgFillAsks` whose id list does, leaves
+the state (balances, orders) exactly as it was. -/
+theorem repeated_ids_rejected (m c : Addr) (s : KState) :
+    (∀ a b ep, ¬ (a ++ b).Nodup → s.apply m c (.settle a b ep) = s) ∧
+    (∀ seller ids ta flat, ¬ ids.Nodup → s.apply m c (.fillBids seller ids ta flat) = s) ∧
+    (∀ buyer ids tp fees, ¬ ids.Nodup → s.apply m c (.fillAsks buyer ids tp fees) = s) := by
+  refine ⟨?_, ?_, ?_⟩
+  · intro a b ep hn
+    unfold KState.apply
+    simp only
+    cases h : s.msgMarketSettle m c a b ep with
+    | error e => rfl
+    | ok s' =>
+      exfalso
+      unfold KState.msgMarketSettle at h
+      split at h; · simp at h
+      rename_i hv
+      exact hn (settleValidateBasic_ok hv).2.2.2
+  · intro seller ids ta flat hn
+    unfold KState.apply
+    simp only
+    cases h : s.msgFillBids m c seller ids ta flat with
+    | error e => rfl
+    | ok s' =>
+      exfalso
+      unfold KState.msgFillBids at h
+      split at h; · simp at h
+      rename_i hv
+      exact hn (validateOrderIDs_ok hv).2.2
+  · intro buyer ids tp fees hn
+    unfold KState.apply
+    simp only
+    cases h : s.msgFillAsks m c buyer ids tp fees with
+    | error e => rfl
+    | ok s' =>
+      exfalso
+      unfold KState.msgFillAsks at h
+      split at h; · simp at h
+      rename_i hv
+      exact hn (validateOrderIDs_ok hv).2.2
+
+/-- **Every accepted `MsgMarketSettle` of every reachable state is covered** — `settleOrders_covered`
+without the assumption on the ids: the request's `ValidateBasic` provides it.  The orders fetched
+are pairwise different stored orders, so every sum of the settlement theorems counts each order once. -/
+theorem msgMarketSettle_covered {s s' : KState} {m c : Addr} {a b : List Nat} {ep : Bool}
+    (hI : StoreInv s) (h : s.msgMarketSettle m c a b ep = .ok s') :
+    ∃ asks bids st L,
+      s.getOrders true a "" = .ok asks ∧ s.getOrders false b "" = .ok bids ∧
+      buildSettlement asks bids s.lookup = .ok st ∧ ep = st.partialFilled.isSome ∧
+      closeSettlement m c s.splitOf st = .ok L ∧ s'.ledger = s.ledger ++ L ∧
+      (∀ o ∈ asks ++ bids, OrderPos o) ∧ ((asks ++ bids).map (·.id)).Nodup := by
+  unfold KState.msgMarketSettle at h
+  split at h; · simp at h
+  rename_i hv
+  exact settleOrders_covered hI (settleValidateBasic_ok hv).2.2.2 h
+
+/-- **A settled order cannot be settled again.**  After an accepted `MsgMarketSettle` none of the
+orders it named is in the store any more, except the one order left partially filled — and that
+one is there as its remainder (`PartialOrderLeft`: strictly fewer assets, `split_exact`). -/
+theorem settled_orders_leave_store {s s' : KState} {m c : Addr} {a b : List Nat} {ep : Bool}
+    (h : s.msgMarketSettle m c a b ep = .ok s') :
+    ∃ asks bids st, s.getOrders true a "" = .ok asks ∧ s.getOrders false b "" = .ok bids ∧
+      buildSettlement asks bids s.lookup = .ok st ∧
+      ∀ o ∈ s'.orders, o.id ∈ a ++ b → st.partialLeft = some o := by
+  unfold KState.msgMarketSettle at h
+  split at h; · simp at h
+  unfold KState.settleOrders at h
+  split at h
+  · simp at h
+  · simp at h
+  · rename_i asks bids ha hb
+    split at h; · simp at h
+    rename_i st hst
+    split at h; · simp at h
+    refine ⟨asks, bids, st, ha, hb, hst, ?_⟩
+    obtain ⟨p, hp, hs⟩ := buildSettlement_eq.mp hst
+    obtain ⟨_, _, _, _, _, _, _, _, hpf, hpl⟩ := settlement_unfold hs
+    have hpf' : (st.fullyFilled, st.partialFilled) = populateFilled (Plan.filledOrders p) p.partialLeft := hpf
+    have hids : (Plan.filledOrders p).map (·.order.id) = a ++ b := by
+      rw [(filled_ids hp).1, List.map_append, getOrders_ids ha, getOrders_ids hb]
+    obtain ⟨_, ho⟩ := close_orders h
+    intro o hmem hin
+    rw [hpl] at ho ⊢
+    unfold populateFilled at hpf'
+    cases hl : p.partialLeft with
+    | none =>
+      exfalso
+      rw [hl] at hpf' ho
+      simp only [Prod.mk.injEq] at hpf' ho
+      rw [ho] at hmem
+      have h2 := (List.mem_filter.mp hmem).2
+      rw [hpf'.1, hids] at h2
+      simp only [Bool.not_eq_true', List.contains_eq_mem, decide_eq_false_iff_not] at h2
+      exact h2 hin
+    | some l =>
+      rw [hl] at hpf' ho
+      simp only [Prod.mk.injEq] at hpf' ho
+      rw [ho] at hmem
+      obtain ⟨o', ho', rfl⟩ := List.mem_map.mp hmem
+      have h2 := (List.mem_filter.mp ho').2
+      rw [hpf'.1] at h2
+      by_cases hid : o'.id = l.id
+      · simp [hid]
+      · exfalso
+        simp only [hid, if_false] at hin
+        simp only [Bool.not_eq_true', List.contains_eq_mem, decide_eq_false_iff_not] at h2
+        apply h2
+        rw [← hids] at hin
+        obtain ⟨f, hf, hfid⟩ := List.mem_map.mp hin
+        exact List.mem_map.mpr ⟨f, List.mem_filter.mpr ⟨hf, by simp [hfid, hid]⟩, hfid⟩
+
+/-- **User fills settle each order once, and for good.**  An accepted `MsgFillBids` fetched pairwise
+different stored orders (so every sum in `fillBids_deltas` counts each bid once) and afterwards none
+of them is in the store. -/
+theorem msgFillBids_once {s s' : KState} {m c seller : Addr} {ids : List Nat} {ta flat : Coins}
+    (h : s.msgFillBids m c seller ids ta flat = .ok s') :
+    s.fillBids m c seller ids ta flat = .ok s' ∧
+    ∃ orders, s.getOrders false ids seller = .ok orders ∧ (orders.map (·.id)).Nodup ∧
+      ∀ o ∈ s'.orders, o.id ∉ ids := by
+  unfold KState.msgFillBids at h
+  split at h; · simp at h
+  rename_i hv
+  refine ⟨h, ?_⟩
+  unfold KState.fillBids at h
+  split at h; · simp at h
+  rename_i orders hor
+  simp only at h
+  split at h; · simp at h
+  split at h; · simp at h
+  refine ⟨orders, hor, by rw [getOrders_ids hor]; exact (validateOrderIDs_ok hv).2.2, ?_⟩
+  obtain ⟨_, ho⟩ := close_orders h
+  simp only [List.map_map] at ho
+  intro o hmem hin
+  rw [ho] at hmem
+  have h2 := (List.mem_filter.mp hmem).2
+  have e : orders.map ((fun f : FilledOrder => f.order.id) ∘ fun o => (⟨o, o.price, o.fees⟩ : FilledOrder)) = ids := by
+    rw [← getOrders_ids hor]; apply List.map_congr_left; intro o _; rfl
+  rw [e] at h2
+  simp only [Bool.not_eq_true', List.contains_eq_mem, decide_eq_false_iff_not] at h2
+  exact h2 hin
+
+/-- The same for an accepted `MsgFillAsks` (cf. `fillAsks_deltas`). -/
+theorem msgFillAsks_once {s s' : KState} {m c buyer : Addr} {ids : List Nat} {tp : Denom × Int} {fees : Coins}
+    (h : s.msgFillAsks m c buyer ids tp fees = .ok s') :
+    s.fillAsks m c buyer ids tp fees = .ok s' ∧
+    ∃ orders, s.getOrders true ids buyer = .ok orders ∧ (orders.map (·.id)).Nodup ∧
+      ∀ o ∈ s'.orders, o.id ∉ ids := by
+  unfold KState.msgFillAsks at h
+  split at h; · simp at h
+  rename_i hv
+  refine ⟨h, ?_⟩
+  unfold KState.fillAsks at h
+  split at h; · simp at h
+  rename_i orders hor
+  simp only at h
+  split at h; · simp at h
+  split at h; · simp at h
+  rename_i ratioFees hrf
+  refine ⟨orders, hor, by rw [getOrders_ids hor]; exact (validateOrderIDs_ok hv).2.2, ?_⟩
+  obtain ⟨_, ho⟩ := close_orders h
+  simp only [List.map_map] at ho
+  intro o hmem hin
+  rw [ho] at hmem
+  have h2 := (List.mem_filter.mp hmem).2
+  have e : (orders.zip ratioFees).map ((fun f : FilledOrder => f.order.id) ∘
+      fun p => (⟨p.1, p.1.price, p.1.fees ++ p.2⟩ : FilledOrder)) = ids := by
+    rw [← getOrders_ids hor, ← map_fst_zip_fun (·.id) orders ratioFees (mapM_ok_length _ _ _ hrf)]
+    apply List.map_congr_left; intro o _; rfl
+  rw [e] at h2
+  simp only [Bool.not_eq_true', List.contains_eq_mem, decide_eq_false_iff_not] at h2
+  exact h2 hin
 
 
 /-! ## 6. Non-vacuity
